@@ -48,7 +48,7 @@ def main():
         ],
         "checks": checks,
         "not_applicable": [{"property_id": p, "reason": na[p]} for p in sorted(na)],
-        "notes": "Static analysis only. Exit 0 = all obligations discharged or matched by known_findings.json (printed as KNOWN-FINDING); exit 1 + VIOLATION line = unlisted finding; exit 2 + ANALYSIS-ERROR = anchor vanished / construct outside the analysed subset (never a silent pass).",
+        "notes": "Static analysis only. Exit 0 = all obligations discharged or matched by known_findings.json (printed as KNOWN-FINDING); exit 1 + VIOLATION line = unlisted finding; exit 2 + ANALYSIS-ERROR = anchor vanished / construct outside the analysed subset (never a silent pass). Before any rule runs the parsed source is brought to a normal form (sa/normal.py; DESIGN section 12: renamed private functions and locals, extracted helpers, named constants, loop/comprehension and guard-clause spellings) and rules compare path conditions and facts, not source text; 144 behaviour-preserving rewrites written by sub-agents are replayed by the self-test (142 silent, 2 recorded limits) next to 190 breaking variants. Thorough tier = deeper recursion bound + replay of all catalogued variants of the property and of the rewrites on scratch copies (VERIF_JOBS workers, default 4).",
     }
     with open(os.path.join(HERE, "MANIFEST.json"), "w") as f:
         json.dump(m, f, indent=1)
